@@ -178,7 +178,7 @@ def parse_impl(line):
         line, u = line.split(' ; use=')
         use = u.strip()
     parts = line.split(' | ')
-    m = re.match(r'^T=(\S+) A=(-?\d+) R=(\d)$', parts[0])
+    m = re.match(r'^T=(\S+) A=(-?\d+) R=(\d) D=(-?\d)$', parts[0])
     if not m:
         return 'no object obtained: ' + line[:200]
     steps = []
@@ -188,7 +188,7 @@ def parse_impl(line):
             return 'step not completed: ' + p[:120]
         steps.append({'out': s.group(1), 'fo': int(s.group(2)), 'ro': int(s.group(3)), 'fb': int(s.group(4)),
                       'rb': int(s.group(5)), 'h': s.group(6), 'b': s.group(7), 'c': s.group(8)})
-    return ({'T': m.group(1), 'A': int(m.group(2)), 'R': int(m.group(3))}, steps, use)
+    return ({'T': m.group(1), 'A': int(m.group(2)), 'R': int(m.group(3)), 'D': m.group(4)}, steps, use)
 
 
 def strip_use(line):
@@ -214,6 +214,8 @@ def oracle_detail(case, impl, spec):
         fails.append(('type_of gives %s, the declared type is %s' % (head['T'], m.group(1)), False))
     if head['A'] != int(m.group(2)):
         fails.append(('allocation class word is %d, expected %s' % (head['A'], m.group(2)), False))
+    if head['D'] != '1':
+        fails.append(('the type the container/view declares for its items (iter_type / key_type / val_type) is not the type_of the object handed out', False))
     if use != '1':
         fails.append(('size(type) bytes of the object are not usable (pattern write/read or header damaged)', False))
     demands, total = sp[1:-1], sp[-1].split('=')[1]
